@@ -77,7 +77,7 @@ def callee_id(c):
     cid = key
     if self_s and self_s not in key:
         cid = '%s@%s' % (key, self_s)
-    if cid not in CALLEES:
+    if True:  # always refresh: uids (impl numbering) differ between variants analysed in one process
         CALLEES[cid] = {
             'def': c['def'], 'resolved': c['resolved'], 'trait': c['trait'], 'name': c['name'],
             'self': self_adt, 'self_s': self_s, 'local': c['local'] or (c['resolved'] or '').startswith(('crdts::', '<crdts::')),
@@ -204,6 +204,7 @@ class Interp:
         self.muts = {}        # (bb, arg index) -> WriteRec (via &mut escapes into calls)
         self.returns = {}
         self.ret_assigns = {}
+        self.ret_store = {}
         self.assign_vals = {}   # (bb, stmt index | 'dest') -> (plain local or None, value term)
         self.in_states = {}
         self.first_in = {}
@@ -492,7 +493,7 @@ class Interp:
         # look at the closure body's uses: a by-ref capture whose field type is &mut
         # the closure env local is _1; its type lists upvar tys only in the string form, so
         # consult the body: any place (*_1).k deref'd and written / &mut-borrowed.
-        key = ('capmut', cb.uid, kidx)
+        key = ('capmut', self.facts.serial, cb.uid, kidx)
         if key in _CACHE:
             return _CACHE[key]
         res = False
@@ -736,6 +737,7 @@ class Interp:
             self.switches[bb] = SwitchRec(bb, d, tuple(targets), t['otherwise'], signed, bits, t['span']['line'])
         elif tk == 'return':
             self.returns[bb] = self.value(st, st.env.get(0, UNDEF))
+            self.ret_store[bb] = {root: v for root, v in st.store.items() if root[0] == 'P'}
 
     def _is_param_local(self, root):
         return root[0] == 'L' and 1 <= root[1] <= self.body.arg_count
@@ -849,7 +851,7 @@ _INTERP_CACHE = {}
 
 
 def interp(facts, body):
-    key = (id(facts), body.uid)
+    key = (facts.serial, body.uid)
     if key not in _INTERP_CACHE:
         _INTERP_CACHE[key] = Interp(facts, body)
     return _INTERP_CACHE[key]
